@@ -24,7 +24,7 @@ from concurrent.futures import ThreadPoolExecutor
 sys.path.insert(0, os.path.dirname(os.path.dirname(os.path.abspath(__file__))))
 from sim import report  # noqa: E402
 from sim.choices import Choices, derive_seed, shrink  # noqa: E402
-from sim.cgen import gen_unit  # noqa: E402
+from sim.cgen import gen_unit, gen_project  # noqa: E402
 
 PROP = "C30"
 HERE = os.path.dirname(os.path.abspath(__file__))
@@ -87,14 +87,20 @@ def run_worker(cfg, ops):
 
 def gen_subject(ch, sid, tier, chosen):
     profile = ["rich", "basic", "tiny"][tier]
-    src = gen_unit(ch, profile)
+    # names are shared between the modules of a batch, sometimes with the
+    # roles swapped (one module's function is another module's variable)
+    fnp, glp = ch.pick([("f", "g"), ("f", "g"), ("g", "f"), ("lib", "entry")],
+                       "prefixes")
+    src = gen_unit(ch, profile, fn_prefix=fnp, glob_prefix=glp,
+                   pointers=bool(ch.chance(1, 2, "pointers")))
     ops = []
     for t in chosen:
         if len(chosen) > 1 and ch.chance(1, 4, "skiptarget"):
             continue
         opt = ch.pick(OPTS, "opt")
         outs = ["obj"]
-        if ch.chance(1, 3, "elf"):
+        if ch.chance(1, 3, "elf") or (t == "x86_64" and
+                                      ch.chance(1, 2, "elf64")):
             outs.append("elf")
         if ch.chance(1, 3, "img"):
             outs.append("img")
@@ -132,12 +138,65 @@ def gen_asm_arm(ch):
     return "\n".join(lines) + "\n"
 
 
-def gen_asm_ops(ch, b):
+GENERIC_ASM_TARGETS = ["arm", "riscv", "or1k", "mips", "xtensa", "msp430",
+                       "avr"]
+
+
+def gen_asm_generic(ch):
+    """Labels and data only (accepted by most assemblers); the label names
+    collide on purpose with function / variable names of the C subjects."""
+    lines = []
+    for sec in ("code", "data"):
+        lines.append(f"section {sec}")
+        for _ in range(1 + ch.draw(3, "nglab")):
+            name = ch.pick(["f0", "f1", "g0", "g1", "lib0", "entry0", "main",
+                            "p0", "t0"], "glabel") + ch.pick(["", "", "_x"],
+                                                             "gsuffix")
+            if name + ":" in lines:
+                continue
+            if ch.chance(1, 3, "gglobal"):
+                lines.append(f"global {name}")
+            lines.append(f"{name}:")
+            for _ in range(1 + ch.draw(2, "ngdata")):
+                if ch.chance(1, 2, "gdd"):
+                    lines.append(f"dd {ch.draw(1 << 30, 'gword')}")
+                else:
+                    lines.append(f"db {ch.draw(256, 'gbyte')}")
+    return "\n".join(lines) + "\n"
+
+
+def gen_asm_ops(ch, b, chosen):
     ops = []
     for n in range(ch.weighted([3, 2, 1], "nasm")):
         ops.append({"id": f"asm{b}.{n}-arm", "lang": "asm",
                     "src": gen_asm_arm(ch), "march": "arm", "opt": 0,
                     "outputs": ["obj"]})
+    cands = [t for t in chosen if t in GENERIC_ASM_TARGETS]
+    for n in range(ch.weighted([2, 2, 1], "ngasm") if cands else 0):
+        t = ch.pick(cands, "gasmtarget")
+        ops.append({"id": f"gasm{b}.{n}-{t}", "lang": "asm",
+                    "src": gen_asm_generic(ch), "march": t, "opt": 0,
+                    "outputs": ["obj"]})
+    return ops
+
+
+def gen_project_ops(ch, b, chosen):
+    """Multi-module programs: archive + link with libraries."""
+    ops = []
+    cands = [t for t in chosen if t in RICH]
+    for n in range(ch.weighted([2, 3, 1], "nproj") if cands else 0):
+        t = ch.pick(cands, "projtarget")
+        main, members = gen_project(ch, f"{n}")
+        extra = []
+        if ch.chance(1, 3, "projextra"):
+            extra.append(gen_unit(ch, "basic", fn_prefix=f"x{n}_",
+                                  glob_prefix=f"xg{n}_"))
+        outs = ["obj"]
+        if t == "x86_64" and ch.chance(1, 2, "projexe"):
+            outs.append("exe")
+        ops.append({"id": f"proj{b}.{n}-{t}", "lang": "project", "src": main,
+                    "members": members, "extra": extra, "march": t,
+                    "opt": ch.pick(OPTS, "projopt"), "outputs": outs})
     return ops
 
 
@@ -171,7 +230,8 @@ def gen_batch(seed, b):
     ops = []
     for sid in range(m):
         ops += gen_subject(ch, f"{b}.{sid}", tier, chosen)
-    ops += gen_asm_ops(ch, b)
+    ops += gen_asm_ops(ch, b, chosen)
+    ops += gen_project_ops(ch, b, chosen)
     runs = []
     k = 4
     for r in range(k):
